@@ -127,7 +127,7 @@ pub enum Outcome {
     /// no packing found (legal outcome for oversized graphs)
     PackingFailed,
     /// compiled bytes cannot be read back
-    ReadError { bytes: Vec<u8>, err: String },
+    ReadError { bytes: Vec<u8>, err: String, written: Value },
     /// the value has no consistent read arguments
     NotApplicable,
     Done(Box<Done>),
@@ -186,7 +186,7 @@ where
     let v2 = match guard(|| read(&bytes, &v)) {
         Err(p) => return Outcome::Panic { stage: "read", info: p, bytes: Some(bytes) },
         Ok(None) => return Outcome::NotApplicable,
-        Ok(Some(Err(e))) => return Outcome::ReadError { bytes, err: format!("{}", e) },
+        Ok(Some(Err(e))) => return Outcome::ReadError { bytes, err: format!("{}", e), written: serde_json::to_value(&v).unwrap_or(Value::Null) },
         Ok(Some(Ok(v2))) => v2,
     };
     let equal = v2 == v;
